@@ -525,6 +525,8 @@ pub struct C03 {
     words: BTreeMap<&'static str, Vec<String>>,
     pure: c03_pure::Pure,
     outline: c03_outline::Outline,
+    /// set when the running history already counted a generator self-check failure
+    model_mismatch_flag: std::cell::Cell<bool>,
 }
 
 impl C03 {
@@ -552,7 +554,7 @@ impl C03 {
         }
         let pure = c03_pure::Pure::new(cx);
         let outline = c03_outline::Outline::new(cx);
-        C03 { fonts, shaping, variable, images, all, words, pure, outline }
+        C03 { fonts, shaping, variable, images, all, words, pure, outline, model_mismatch_flag: std::cell::Cell::new(false) }
     }
 
     fn word(&self, script: u32, rng: &mut Rng) -> String {
@@ -907,6 +909,7 @@ fn run_of(infos: &[Info]) -> Vec<(u16, i32)> {
 
 impl C03 {
     fn history_case(&mut self, cx: &mut Ctx, rng: &mut Rng, class: FontClass) {
+        self.model_mismatch_flag.set(false);
         // --- the font, its tuples and pools
         let gen: Option<GenFont>;
         let mut real_fv = false;
@@ -1056,9 +1059,11 @@ impl C03 {
             cx.class("gen:fresh-agrees-with-model");
         } else {
             cx.class("gen:fresh-disagrees-with-model");
-            cx.inconclusive("gen:model-mismatch");
+            if !self.model_mismatch_flag.replace(true) {
+                cx.inconclusive("gen:model-mismatch");
+            }
             if cx.verbose {
-                eprintln!("model mismatch: {:?}\n expect {:?}\n got    {:?}\n gsub {:?}\n gpos {:?}\n tuple {:?}", s, expect, run_of(&infos), g.gsub, g.gpos, tuple);
+                eprintln!("model mismatch: {:?}\n expect {:?}\n got    {:?}\n gsub {:?}\n gpos {:?}\n tuple {:?} kern {:?}", s, expect, run_of(&infos), g.gsub, g.gpos, tuple, g.kern_pairs);
             }
         }
     }
